@@ -15,7 +15,8 @@ DECIDED = ["R11a key-value store and indexes are co-updated (MUST, 4 primitives 
            "R11c duplicate index is rejected before any effect (DOM)",
            "R11d remove_index undo order",
            "R11e replacement un-indexes the previous value and indexes the new one (argument provenance)",
-           "R11f back-fill decides node/edge by a graph lookup"]
+           "R11f back-fill decides node/edge by a graph lookup",
+           "R19t slot states of the hash tables are written only by insert / remove / full rehash (WHO table, shared)"]
 UNDECIDED = ["contents of the index multimap over histories (needs execution)"]
 
 DB = "agdb::db::DbImpl::"
@@ -173,4 +174,7 @@ def run(ctx):
         ctx.ob("R11d", "remove_index:undo-order", ok,
                "InsertToIndex pushed per entry (in a loop) before InsertIndex; indexes.remove after both" if ok else
                "remove_index no longer records every index entry before the InsertIndex command", b.where)
+    # tombstone discipline of the open-addressing tables behind the index maps (shared rule, rules/maps_common.py)
+    from rules import maps_common
+    maps_common.slot_state_rule(ctx)
     return 0
